@@ -325,6 +325,41 @@ Proof.
   destruct H as (Hk & _ & Hc). exfalso. apply (cyclic_not_acyclic _ Hc). apply Ha. lia.
 Qed.
 
+(* histories that go on after rejected links: what the parser holds in the end is acyclic, so the order theorems above
+   (sources_before_targets, order_respects_links) apply to it as to any accepted set *)
+Lemma add_links_cont_from_acyclic fx cs : forall todo done k,
+  (done = [] \/ acyclic (link_edges fx cs done)) ->
+  let a := fst (add_links_cont_from fx cs done todo k) in a = [] \/ acyclic (link_edges fx cs a).
+Proof.
+  induction todo as [|l todo IH]; intros done k Hd; cbn [add_links_cont_from]; [exact Hd|].
+  assert (Hne : done ++ [l] <> []) by (destruct done; discriminate).
+  pose proof (inst_order_verdict fx cs (done ++ [l]) Hne) as Hv.
+  destruct (inst_order fx cs (done ++ [l])) as [o|u v|].
+  - apply IH. right. exact Hv.
+  - specialize (IH done (S k) Hd). destruct (add_links_cont_from fx cs done todo (S k)) as [a r]. exact IH.
+  - specialize (IH done (S k) Hd). destruct (add_links_cont_from fx cs done todo (S k)) as [a r]. exact IH.
+Qed.
+
+Theorem add_links_cont_acyclic fx cs ls :
+  let a := fst (add_links_cont fx cs ls) in a = [] \/ acyclic (link_edges fx cs a).
+Proof. apply add_links_cont_from_acyclic. left; reflexivity. Qed.
+
+(* and instantiate_classes then finds an order for it: it never raises "Graph has cycles" for the accepted set *)
+Theorem add_links_cont_has_order fx cs ls :
+  exists o, inst_order fx cs (fst (add_links_cont fx cs ls)) = Order o.
+Proof.
+  pose proof (add_links_cont_acyclic fx cs ls) as H. cbv zeta in H.
+  destruct (fst (add_links_cont fx cs ls)) as [|l a] eqn:E.
+  - exists []. reflexivity.
+  - destruct H as [H|H]; [discriminate|].
+    assert (Hne : l :: a <> []) by discriminate.
+    pose proof (inst_order_verdict fx cs (l :: a) Hne) as Hv.
+    destruct (inst_order fx cs (l :: a)) as [o|u v|].
+    + exists o. reflexivity.
+    + exfalso. exact (cyclic_not_acyclic _ Hv H).
+    + exfalso. exact (cyclic_not_acyclic _ Hv H).
+Qed.
+
 (* the order of an accepted link set lists every link's source component dest before the link's target node *)
 Theorem order_respects_links fx cs ls o l k cS :
   inst_order fx cs ls = Order o -> In l ls -> In k (l_srcs l) -> resolve_src cs k = Some cS ->
@@ -340,3 +375,4 @@ Qed.
 Print Assumptions sources_before_targets.
 Print Assumptions add_links_spec.
 Print Assumptions comp_sequence_perm.
+Print Assumptions add_links_cont_has_order.
